@@ -1098,8 +1098,8 @@ func Run(c *hx.Ctx) {
 		}
 	}
 	// 2. generated schedules
-	nA := c.N(120, 2000)
-	nB := c.N(330, 8000)
+	nA := c.N(120, 600)
+	nB := c.N(330, 2400)
 	// modes: 0 sequential, 1 sequential churn (few hosts, many closes), 2.. concurrent
 	for _, lv := range []struct {
 		level string
